@@ -398,7 +398,8 @@ def oracle(ctx):
         if mi == nedits:
             fam = fams.pop(fi)
             _account_family(ctx, fam)
-            all_fams.append(fam)
+            if len(all_fams) < 200:      # kept for the revert check and the correspondence; the others are done with
+                all_fams.append(fam)
             done += 1
     ctx.notes["families"] = done
     ctx.notes["t_families_s"] = round(time.time() - t0, 1)
